@@ -713,6 +713,7 @@ Proof.
   - free_rest.
   - apply (clause_405 i s e kept); assumption.
   - free_rest.
+  - free_rest.
   - match goal with |- free_of _ (c04_scan _ _ ?kn _ _) = true =>
       change kn with (kept_next (s_cfg s) e (obs_of s) (obs_of (step s e)) kept) end.
     rewrite <- (step_cfg (s_cfg s) s e eq_refl) at 1.
@@ -1088,6 +1089,7 @@ Proof.
   induction es as [|e r IH]; intros s i kept Hb Hri Hlb Hce Hch Hgf; cbn [run_trace map combine]; [reflexivity|].
   inversion Hgf as [|? ? Hg Hgr]; subst.
   cbn [c04_scan]. rewrite !free_of_app. repeat (apply andb_true_iff; split).
+  - free_rest.
   - free_rest.
   - free_rest.
   - free_rest.
